@@ -1306,6 +1306,9 @@ func Generate(t Tape, p *Profile) *Program {
 		g.nloc += countLocals(ss)
 		body = append(body, ss...)
 	}
+	if g.feat("repetition") && t.Choose(10) == 0 {
+		body = append(body, g.sRepetition(fc)...)
+	}
 	if p.Epilogue {
 		body = append(body, g.epilogue(fc)...)
 	}
@@ -1313,6 +1316,116 @@ func Generate(t Tape, p *Profile) *Program {
 	g.prog.Body = body
 	g.prog.NStmts = g.stmts
 	return g.prog
+}
+
+// sRepetition: one mechanism repeated often enough to cross internal thresholds (segments of 8 call frames, pages,
+// pools, growth steps of the registry, the 256 boundary of byte-sized fields): many closures over loop variables,
+// many failed protected calls of the same function, many coroutines created and finished, many coroutines alive at
+// once, recursion with a captured local per level. Programs with such a block are usually too long for the fault
+// sweep; they are compared fault-free against the model.
+func (g *gen) sRepetition(fc *fctx) []Stmt {
+	n := []int{33, 70, 130, 260, 520}[g.t.Choose(5)]
+	N := Num{float64(n)}
+	kind := g.t.Choose(5)
+	g.use([]string{"repeat_closures", "repeat_failed_pcalls", "repeat_coroutines", "repeat_live_coroutines", "repeat_recursion_with_captures"}[kind])
+	nf := func(params []string, body ...Stmt) Func {
+		g.prog.NFuncs++
+		return Func{&FuncDef{ID: g.prog.NFuncs, Params: params, Body: body}}
+	}
+	i, s := g.fresh("i"), g.fresh("rs")
+	var out []Stmt
+	switch kind {
+	case 0:
+		fs, v, f, r, a, b := g.fresh("fs"), g.fresh("v"), g.fresh("f"), g.fresh("r"), g.fresh("ra"), g.fresh("rb")
+		out = []Stmt{
+			&Local{Names: []string{fs}, Exprs: []Expr{TableCons{}}},
+			&NumFor{Var: i, From: Num{1}, To: N, Body: []Stmt{
+				&Local{Names: []string{v}, Exprs: []Expr{Var{i}}},
+				&Local{Names: []string{f}, Exprs: []Expr{nf(nil, &Assign{Targets: []Expr{Var{v}}, Exprs: []Expr{Bin{"+", Var{v}, Num{1}}}}, &Return{Exprs: []Expr{Var{v}}})}},
+				&Assign{Targets: []Expr{Index{Var{fs}, Var{i}}}, Exprs: []Expr{Var{f}}}}},
+			&Local{Names: []string{s}, Exprs: []Expr{Num{0}}},
+			&NumFor{Var: i, From: Num{1}, To: N, Body: []Stmt{
+				&Call{Names: []string{r}, Fn: Index{Var{fs}, Var{i}}},
+				&Assign{Targets: []Expr{Var{s}}, Exprs: []Expr{Bin{"+", Var{s}, Var{r}}}}}},
+			&Call{Names: []string{a}, Fn: Index{Var{fs}, Num{1}}},
+			&Call{Names: []string{b}, Fn: Index{Var{fs}, N}},
+			&Call{Fn: Var{"emit"}, Args: []Expr{Str{"rep"}, Var{s}, Var{a}, Var{b}}},
+		}
+	case 1:
+		c, k, bd, p, x, gf, r, ok, e := g.fresh("c"), g.fresh("k"), g.fresh("bd"), g.fresh("p"), g.fresh("x"), g.fresh("g"), g.fresh("r"), g.fresh("ok"), g.fresh("e")
+		out = []Stmt{
+			&Local{Names: []string{c, k}, Exprs: []Expr{Num{0}, Num{0}}},
+			&Local{Names: []string{bd}, Exprs: []Expr{nf([]string{p},
+				&Local{Names: []string{x}, Exprs: []Expr{Var{p}}},
+				&Local{Names: []string{gf}, Exprs: []Expr{nf(nil, &Assign{Targets: []Expr{Var{x}}, Exprs: []Expr{Bin{"+", Var{x}, Num{1}}}}, &Return{Exprs: []Expr{Var{x}}})}},
+				&Assign{Targets: []Expr{Var{k}}, Exprs: []Expr{Bin{"+", Var{k}, Num{1}}}},
+				&If{Conds: []Expr{Bin{">=", Var{k}, Num{3}}}, Blocks: [][]Stmt{{
+					&Assign{Targets: []Expr{Var{k}}, Exprs: []Expr{Num{0}}},
+					&Call{Fn: Var{"error"}, Args: []Expr{Var{p}}}}}},
+				&Call{Names: []string{r}, Fn: Var{gf}},
+				&Assign{Targets: []Expr{Var{c}}, Exprs: []Expr{Bin{"+", Var{c}, Var{r}}}})}},
+			&NumFor{Var: i, From: Num{1}, To: N, Body: []Stmt{
+				&Call{Names: []string{ok, e}, Fn: Var{"pcall"}, Args: []Expr{Var{bd}, Var{i}}},
+				&If{Conds: []Expr{Bin{"==", Var{ok}, False{}}}, Blocks: [][]Stmt{{
+					&Assign{Targets: []Expr{Var{c}}, Exprs: []Expr{Bin{"+", Var{c}, Var{e}}}}}}}}},
+			&Call{Fn: Var{"emit"}, Args: []Expr{Str{"rep"}, Var{c}, Var{k}}},
+		}
+	case 2:
+		cb, a, b, co, x, y := g.fresh("cb"), g.fresh("a"), g.fresh("b"), g.fresh("co"), g.fresh("x"), g.fresh("y")
+		out = []Stmt{
+			&Local{Names: []string{s}, Exprs: []Expr{Num{0}}},
+			&Local{Names: []string{cb}, Exprs: []Expr{nf([]string{a},
+				&Call{Names: []string{b}, Fn: Var{"coyield"}, Args: []Expr{Bin{"+", Var{a}, Num{1}}}},
+				&Return{Exprs: []Expr{Bin{"*", Var{b}, Num{2}}}})}},
+			&NumFor{Var: i, From: Num{1}, To: N, Body: []Stmt{
+				&Call{Names: []string{co}, Fn: Var{"cowrap"}, Args: []Expr{Var{cb}}},
+				&Call{Names: []string{x}, Fn: Var{co}, Args: []Expr{Var{i}}},
+				&Call{Names: []string{y}, Fn: Var{co}, Args: []Expr{Var{x}}},
+				&Assign{Targets: []Expr{Var{s}}, Exprs: []Expr{Bin{"+", Bin{"+", Var{s}, Var{x}}, Var{y}}}}}},
+			&Call{Fn: Var{"emit"}, Args: []Expr{Str{"rep"}, Var{s}}},
+		}
+	case 3:
+		if n > 260 {
+			N = Num{260}
+		}
+		cb, a, b, c2, co, cos, ok, v, st := g.fresh("cb"), g.fresh("a"), g.fresh("b"), g.fresh("c"), g.fresh("co"), g.fresh("cos"), g.fresh("ok"), g.fresh("v"), g.fresh("st")
+		out = []Stmt{
+			&Local{Names: []string{s}, Exprs: []Expr{Num{0}}},
+			&Local{Names: []string{cos}, Exprs: []Expr{TableCons{}}},
+			&Local{Names: []string{cb}, Exprs: []Expr{nf([]string{a},
+				&Call{Names: []string{b}, Fn: Var{"coyield"}, Args: []Expr{Bin{"+", Var{a}, Num{1}}}},
+				&Call{Names: []string{c2}, Fn: Var{"coyield"}, Args: []Expr{Bin{"+", Var{a}, Var{b}}}},
+				&Return{Exprs: []Expr{Bin{"+", Bin{"*", Var{a}, Num{1000}}, Var{c2}}}})}},
+			&NumFor{Var: i, From: Num{1}, To: N, Body: []Stmt{
+				&Call{Names: []string{co}, Fn: Var{"cocreate"}, Args: []Expr{Var{cb}}},
+				&Call{Names: []string{ok, v}, Fn: Var{"coresume"}, Args: []Expr{Var{co}, Var{i}}},
+				&Assign{Targets: []Expr{Index{Var{cos}, Var{i}}}, Exprs: []Expr{Var{co}}},
+				&Assign{Targets: []Expr{Var{s}}, Exprs: []Expr{Bin{"+", Var{s}, Var{v}}}}}},
+			&NumFor{Var: i, From: N, To: Num{1}, Step: Num{-1}, Body: []Stmt{
+				&Call{Names: []string{ok, v}, Fn: Var{"coresume"}, Args: []Expr{Index{Var{cos}, Var{i}}, Num{5}}},
+				&Assign{Targets: []Expr{Var{s}}, Exprs: []Expr{Bin{"+", Var{s}, Var{v}}}}}},
+			&NumFor{Var: i, From: Num{1}, To: N, Body: []Stmt{
+				&Call{Names: []string{ok, v}, Fn: Var{"coresume"}, Args: []Expr{Index{Var{cos}, Var{i}}, Num{7}}},
+				&Assign{Targets: []Expr{Var{s}}, Exprs: []Expr{Bin{"+", Var{s}, Var{v}}}}}},
+			&Call{Names: []string{st}, Fn: Var{"costatus"}, Args: []Expr{Index{Var{cos}, Num{1}}}},
+			&Call{Fn: Var{"emit"}, Args: []Expr{Str{"rep"}, Var{s}, Var{st}}},
+		}
+	default:
+		depth := []int{7, 9, 17, 33, 40}[g.t.Choose(5)]
+		rec, d, v, f, r, q := g.fresh("rec"), g.fresh("d"), g.fresh("v"), g.fresh("f"), g.fresh("r"), g.fresh("q")
+		out = []Stmt{
+			&Local{Names: []string{rec}, Rec: true, Exprs: []Expr{nf([]string{d},
+				&Local{Names: []string{v}, Exprs: []Expr{Var{d}}},
+				&Local{Names: []string{f}, Exprs: []Expr{nf(nil, &Assign{Targets: []Expr{Var{v}}, Exprs: []Expr{Bin{"+", Var{v}, Num{1}}}}, &Return{Exprs: []Expr{Var{v}}})}},
+				&If{Conds: []Expr{Bin{"<=", Var{d}, Num{0}}}, Blocks: [][]Stmt{{&ReturnCall{Fn: Var{f}}}}},
+				&Call{Names: []string{r}, Fn: Var{rec}, Args: []Expr{Bin{"-", Var{d}, Num{1}}}},
+				&Call{Names: []string{q}, Fn: Var{f}},
+				&Return{Exprs: []Expr{Bin{"+", Var{r}, Bin{"*", Var{q}, Var{v}}}}})}},
+			&Call{Names: []string{s}, Fn: Var{rec}, Args: []Expr{Num{float64(depth)}}},
+			&Call{Fn: Var{"emit"}, Args: []Expr{Str{"rep"}, Var{s}}},
+		}
+	}
+	return []Stmt{&Do{Body: out}}
 }
 
 // epilogue probes everything that is still visible: values of simple
